@@ -3,7 +3,10 @@
 // /verif/selftest/expected.txt. "must fail" entries guard the soundness of the frame heuristics.
 package st
 
-import "sort"
+import (
+	"encoding/json"
+	"sort"
+)
 
 type T struct {
 	x int
@@ -281,4 +284,15 @@ func (p *Pending) MarksOnly(k string) { p.gone[k] = struct{}{} }
 func (p *Pending) Unmarks(k string) {
 	m := p.gone
 	delete(m, k)
+}
+
+// --- reflective decoders write fields of packages whose code they never call ---
+
+type Inbox struct{ Doc string }
+
+// DecodedFieldMayChange: json.Unmarshal fills in.Doc; "still empty" must not be provable.
+func DecodedFieldMayChange(data []byte) string {
+	var in Inbox
+	_ = json.Unmarshal(data, &in)
+	return in.Doc
 }
